@@ -556,7 +556,34 @@ async def exec_case(env, si, st, channel, case, obs=None):
             fails.append(("kw-precedence", "deadline: server saw %r s remaining, expected %r" % (rem, want_rem)))
     if mode == "normal" and not fails and not m.cs and not m.ss and not kw:
         fails += await resend_after_change(stub, m, st, reqs, resps, call_kw)
+        fails += await falsy_call_values(svc, channel, m, st, reqs)
     return fails, info
+
+
+async def falsy_call_values(svc, channel, m, st, reqs):
+    """per-call values take precedence over the stub's whenever they are GIVEN — also when they are falsy:
+    empty metadata suppresses the stub's metadata, a timeout of 0 is a deadline that has already passed"""
+    fails = []
+    stub2 = svc.stub_cls(channel, metadata={"x-src": "stub"}, timeout=40.0)
+    for empty in ({}, []):
+        del st.log[:], st.dispatch[:], st.requests[:], st.helpers[:]
+        try:
+            await asyncio.wait_for(getattr(stub2, m.py)(reqs[0], metadata=empty), CALL_TIMEOUT)
+        except Exception as e:  # noqa
+            fails.append(("kw-precedence", "call with metadata=%r raised %s: %s" % (empty, type(e).__name__, str(e)[:200])))
+            continue
+        if st.dispatch and st.dispatch[0]["metadata"].get("x-src") is not None:
+            fails.append(("kw-precedence", "call-level metadata=%r did not override the stub's: server saw x-src=%r" % (empty, st.dispatch[0]["metadata"].get("x-src"))))
+    for zero in (0, 0.0):
+        del st.log[:], st.dispatch[:], st.requests[:], st.helpers[:]
+        try:
+            await asyncio.wait_for(getattr(stub2, m.py)(reqs[0], timeout=zero), CALL_TIMEOUT)
+        except Exception:  # noqa   (DEADLINE_EXCEEDED / TimeoutError: the deadline had passed)
+            continue
+        rem = st.dispatch[0]["deadline"] if st.dispatch else None
+        if rem is None or rem > 5.0:
+            fails.append(("kw-precedence", "call-level timeout=%r was not applied: the call succeeded and the server saw %r s remaining (stub-level timeout 40 s)" % (zero, rem)))
+    return fails
 
 
 def grow_in_place(msg):
